@@ -16,6 +16,7 @@ and emit nothing.
   for X in ("<n1>", "<n2>", ...):              EDropInst "<n1>"; EDropInst "<n2>"; ...
       self.__dict__.pop(X, None)
   Structure.__init__(self)                     EInitSelf
+  if N is None: N = Structure()                EDefaultNewStructure
   if N is not None: <stmts>                    EGuardParsed <stmt> for each
   self.__dict__.update(N.__dict__)             EUpdateDict
   self[:] = N                                  ESetAllItems
@@ -272,6 +273,13 @@ class _Method:
                 and self.is_name(t.left, self.new) and self.is_none(t.comparators[0]):
             self.stmts(st.body, guarded=True)
             return
+        # if N is None: N = Structure()
+        if isinstance(t, ast.Compare) and len(t.ops) == 1 and isinstance(t.ops[0], ast.Is) and self.new \
+                and self.is_name(t.left, self.new) and self.is_none(t.comparators[0]):
+            if len(st.body) == 1 and ast.unparse(st.body[0]) == "%s = Structure()" % self.new and self.cls == "Structure":
+                self.out.append("EDefaultNewStructure")
+                return
+            self.refuse(st, "None-result block is not `%s = Structure()`" % self.new)
         # if not self.title: <title from file name>
         if isinstance(t, ast.UnaryOp) and isinstance(t.op, ast.Not) and self.is_self_attr(t.operand, "title"):
             self.title_block(st)
